@@ -272,6 +272,7 @@ def opWalk (prop : String) (j : Json) : R Verdict := do
       acc := { corr15 := acc.corr15 && r.corr15, spec15 := acc.spec15 && r.spec15,
                corr16 := acc.corr16 && r.corr16, spec16 := acc.spec16 && r.spec16,
                assume16 := acc.assume16 && r.assume16, corr17 := acc.corr17 && r.corr17,
+               corrText := acc.corrText && r.corrText,
                nsyms := acc.nsyms + r.nsyms, npos := acc.npos + r.npos }
     | _ => acc := { acc with corr15 := false }
   -- every file with a tree must have been walked
@@ -305,6 +306,8 @@ def opWalk (prop : String) (j : Json) : R Verdict := do
       | some b => (allTypesPre b).filter (fun t => match t.kind with | .resolved _ rk => Spec.C17.isItemKind rk | _ => false)
       | none => []).length
     v := { v with nontrivial := acc.nsyms > 3, dist := bump v.dist s!"refs_to_items={min nres 5}" }
+    -- model coverage beyond the property (reported, never a verdict): the texts of get_details / get_signature
+    v := { v with dist := bump v.dist (if acc.corrText then "symbol_text_model_agrees" else "symbol_text_model_DIFFERS") }
   return v
 
 def sortedByOffset (ds : List Diag) : Bool :=
